@@ -904,11 +904,50 @@ def failed_reset_probe(rep, rng):
             return
 
 
+def deferred_draw_probe(rep, rng):
+    """reset() draws the new direction THEN: a direction assigned after a reset is the one rank() uses (nothing pending overwrites it), and two
+    resets in a row are two draws -- checked WITHOUT reading target_measure_dir in between (a read could trigger a postponed draw)"""
+    import ribs.emitters.rankers as R
+    from ribs.archives import GridArchive
+    for cls in (R.RandomDirectionRanker, R.TwoStageRandomDirectionRanker):
+        sd = rng.randrange(1 << 30)
+        a = GridArchive(solution_dim=1, dims=[4, 4], ranges=[(-1.0, 1.0), (0.0, 4.0)])
+        data = {"solution": np.zeros((5, 1)), "objective": np.arange(5.0), "measures": np.array([[0.1, 3.0], [-0.5, 1.0], [0.9, 0.5], [0.0, 2.0], [-0.9, 3.5]])}
+        info = {"status": np.array([2, 2, 0, 1, 2]), "value": np.arange(5.0)}
+        v = np.array([rng.choice([-2.0, 1.0, 3.0]), rng.choice([-1.0, 0.5, 2.0])])
+        r, ref = cls(seed=sd), cls(seed=sd + 1)
+        r.reset(None, a)
+        r.target_measure_dir = v.copy()
+        got = r.rank(None, a, data, info)
+        ref.target_measure_dir = v.copy()
+        want = ref.rank(None, a, data, info)
+        rep.count("deferred_draw_probes")
+        problem = None
+        if not (np.array_equal(np.asarray(got[0]), np.asarray(want[0])) and np.array_equal(np.asarray(got[1]), np.asarray(want[1]))):
+            problem = "reset(); target_measure_dir = %s; rank(...) ranks %s, a ranker that was only given the direction ranks %s" % (
+                v.tolist(), np.asarray(got[0]).tolist(), np.asarray(want[0]).tolist())
+        else:
+            r2, twin = cls(seed=sd), cls(seed=sd)
+            r2.reset(None, a)
+            r2.reset(None, a)
+            twin.reset(None, a)
+            np.asarray(twin.target_measure_dir)
+            twin.reset(None, a)
+            if not np.array_equal(np.asarray(r2.target_measure_dir), np.asarray(twin.target_measure_dir)):
+                problem = "two resets in a row end on %s; resetting, looking at the direction and resetting again (same seed) ends on %s" % (
+                    np.asarray(r2.target_measure_dir).tolist(), np.asarray(twin.target_measure_dir).tolist())
+        if problem:
+            rep.violation("%s: %s" % (cls.__name__, problem), {"kind": "property", "broken": "a random-direction ranker draws its new direction when it is reset and ranks by its current direction",
+                                                              "ranker": cls.__name__, "seed": sd, "direction": v.tolist()}, True, {"kind": "deferred-direction-draw"})
+            return
+
+
 def check(rep, tier, seed, driver):
     py2v_rank.report(rep)
     import ribs.emitters.rankers as R
     rng = random.Random(seed)
     failed_reset_probe(rep, random.Random(seed + 5))
+    deferred_draw_probe(rep, random.Random(seed + 6))
     n_cases = 700 if tier == "quick" else 20000
     rep.rule = ("histories (reset / target_measure_dir setter / rank) on one ranker object per case, over every ranker class exported by "
                 "ribs.emitters.rankers, archives Grid/CVT/SlidingBoundaries/Proximity (+ a GridArchive subclass with compute_density, + a "
